@@ -229,7 +229,17 @@ def whitelist(ctx, s: Sib):
                 problems.append(f"component {ci}: not where(cond, -v, v) of _eigh(fock)[1]")
                 continue
             # the condition must be per column (indexed [idx, arange]) -- a column sign
-            per_col = any(t.op == "call" and array_fn(t) == "arange" for t in subterms(cnd))
+            def axis0(t):
+                if t.op != "call" or (array_fn(t) or "").split(".")[-1] not in (
+                        "argmax", "argmin", "max", "amax", "min", "amin", "take_along_axis", "sum"):
+                    return False
+                _, ps, kw_ = call_parts(t)
+                ax = kw_.get("axis", ps[-1] if len(ps) >= 2 and strip_wrappers(ps[-1]).op == "const" else None)
+                return ax is not None and is_const(strip_wrappers(ax), 0)
+            # one sign per column: the condition is built from a reduction over the row axis (argmax(..., axis=0), picked
+            # up by [idx, arange(n)] or take_along_axis(..., axis=0))
+            per_col = any(t.op == "call" and array_fn(t) == "arange" for t in subterms(cnd)) or \
+                any(axis0(t) for t in subterms(cnd))
             if not per_col:
                 problems.append(f"component {ci}: sign flip is not per column")
                 continue
@@ -321,7 +331,12 @@ def fock_sibling(ctx, s: Sib):
     fu_ = eigh_arg(ub, 0)
     if len(fr_) != 1 or len(fu_) != 2:
         raise AnalysisError("optimize: Fock matrices not found")
-    half = mk("binop", "/", Cr, const(2.0))
+    # the closed-shell density carried by the rhf scan: the carry itself, or the one array entry of a dict / tuple carry
+    dm_r = Cr
+    ents = {x for x in subterms(rb) if x.op == "getitem" and x.args[0] is Cr and x.args[1].op == "const"}
+    if len(ents) == 1:
+        dm_r = next(iter(ents))
+    half = mk("binop", "/", dm_r, const(2.0))
     hyp_u = {getitem(Cu, const(0)): half, getitem(Cu, const(1)): half, key(HD, "h1", 1): key(HD, "h1", 0)}
     hyp_r = {key(HD, "h1", 1): key(HD, "h1", 0)}
     # the reshaped Cholesky tensor is the same array in both (shape bookkeeping differs textually)
@@ -351,6 +366,9 @@ def init_density_sibling(ctx, s: Sib):
         ctx.rep.note("optimize: SCF scan not found; starting-density sibling not applicable")
         return
     ri, ui = match_scan(rs[0])[1], match_scan(us[0])[1]
+    ri0 = strip_wrappers(ri) if ri is not None else None
+    if ri0 is not None and ri0.op == "dict" and len(ri0.args) == 2:
+        ri = ri0.args[1]                         # a dict carry with one array entry: that entry is the density
     u0, u1 = getitem(strip_wrappers(ui), const(0)), getitem(strip_wrappers(ui), const(1))
     if (u0.op == "getitem" and u0.args[0] is strip_wrappers(ui)) or ri is None:
         ctx.rep.note("uhf.optimize: starting density is not a pair of spin blocks; starting-density sibling not applicable")
